@@ -65,209 +65,93 @@ func checkC18(c *Ctx, r *Report) {
 	}
 	r.fn("cmd.parseArgs", "cmd.run", "cmd.main", "cmd.die", "cmd.open")
 
-	// ---- flags
-	r.rule("flags", 12, "parseArgs' switch maps each documented spelling to its field, value flags to their pair of fields, '-h' to help, '--' to the rest, unknown '-x' to a usage error, a lone '-' and other words to the file list; the usage string names every flag")
-	var sw *ast.SwitchStmt
-	ast.Inspect(pa.Body, func(n ast.Node) bool {
-		if s, ok := n.(*ast.SwitchStmt); ok && s.Tag == nil && sw == nil {
-			sw = s
+	// ---- flags: one iteration of the argument loop per class of word (E-CLI model)
+	r.rule("flags", 12, "parseArgs, one iteration of its argument loop interpreted per class of word: each documented spelling turns on exactly its field and goes on; a value flag turns on its field and, with =F, stores F (any other suffix is a usage error); '-h' returns with the help function set and no error; '--' appends the remaining arguments to the file words and ends the loop; an unknown '-x' / '--xyz' is a usage error; a lone '-' and other words are appended to the file words; the usage string names every flag")
+	outcome := func(word string) ([]argOutcome, string) {
+		outs, und := c.argsOutcomes(pa, word)
+		var ss []string
+		for _, o := range outs {
+			ss = append(ss, o.String())
+		}
+		for _, u := range und {
+			ss = append(ss, "undecided: "+u)
+		}
+		return outs, strings.Join(ss, " | ")
+	}
+	single := func(outs []argOutcome) *argOutcome {
+		if len(outs) == 1 && len(outs[0].Problems) == 0 {
+			return &outs[0]
+		}
+		return nil
+	}
+	setsOnly := func(o *argOutcome, want map[string]string) bool {
+		if o == nil || len(o.Sets) != len(want) {
+			return false
+		}
+		for k, v := range want {
+			if o.Sets[k] != v {
+				return false
+			}
 		}
 		return true
-	})
-	if sw == nil {
-		r.bad("flags", "switch", "parseArgs has no flag switch", c.pos(pa.Pos()))
-		return
-	}
-	var argObj interface{}
-	if as, ok := sw.Init.(*ast.AssignStmt); ok {
-		argObj = c.objOf(as.Lhs[0])
-	}
-	_ = argObj
-	gotBool := map[string]string{}
-	gotValue := map[string][]string{}
-	var clusterClause, unknownClause, defaultClause, helpClause, termClause *ast.CaseClause
-	setsOf := func(body []ast.Stmt) []string {
-		var fs []string
-		for _, s := range body {
-			ast.Inspect(s, func(n ast.Node) bool {
-				if as, ok := n.(*ast.AssignStmt); ok {
-					for _, l := range as.Lhs {
-						if fp := c.fieldPath(l); strings.HasPrefix(fp, "<cmd.parsedArgs>.") || strings.HasPrefix(fp, "<parsedArgs>.") {
-							fs = append(fs, fp[strings.Index(fp, ".")+1:])
-						}
-					}
-				}
-				// &a.field handed to a helper that stores the value
-				if ue, ok := n.(*ast.UnaryExpr); ok && ue.Op == token.AND {
-					if fp := c.fieldPath(ue.X); strings.HasPrefix(fp, "<cmd.parsedArgs>.") || strings.HasPrefix(fp, "<parsedArgs>.") {
-						fs = append(fs, fp[strings.Index(fp, ".")+1:])
-					}
-				}
-				return true
-			})
-		}
-		sort.Strings(fs)
-		return fs
-	}
-	for _, a := range c.switchArms(sw) {
-		if a.Default {
-			defaultClause = a.Clause
-			continue
-		}
-		fields := setsOf(a.Body)
-		for _, e := range a.Exprs {
-			switch x := stripParens(e).(type) {
-			case *ast.BinaryExpr:
-				// table form: `case flags[arg] != nil: *flags[arg] = true` with flags := map[string]*bool{"-d": &a.disasm, ...}
-				if x.Op == token.NEQ && isNilIdent(x.Y) {
-					if ix, ok := stripParens(x.X).(*ast.IndexExpr); ok {
-						if id, ok := stripParens(ix.X).(*ast.Ident); ok {
-							if def, n := c.singleDef(pa.Body, c.objOf(id)); n == 1 {
-								if cl, ok := def.(*ast.CompositeLit); ok {
-									setsTrue := false
-									for _, st := range a.Body {
-										if as, ok := st.(*ast.AssignStmt); ok && len(as.Lhs) == 1 && len(as.Rhs) == 1 {
-											if star, ok := as.Lhs[0].(*ast.StarExpr); ok {
-												if ix2, ok := stripParens(star.X).(*ast.IndexExpr); ok && c.sameExpr(ix2, ix) {
-													if rid, ok := as.Rhs[0].(*ast.Ident); ok && rid.Name == "true" {
-														setsTrue = true
-													}
-												}
-											}
-										}
-									}
-									okTable := setsTrue
-									for _, el := range cl.Elts {
-										kv, ok := el.(*ast.KeyValueExpr)
-										if !ok {
-											okTable = false
-											continue
-										}
-										k, ok1 := c.strConst(kv.Key)
-										ue, ok2 := kv.Value.(*ast.UnaryExpr)
-										if !ok1 || !ok2 || ue.Op != token.AND {
-											okTable = false
-											continue
-										}
-										fp := c.fieldPath(ue.X)
-										if setsTrue {
-											gotBool[k] = fp[strings.Index(fp, ".")+1:]
-										}
-									}
-									if okTable {
-										continue
-									}
-								}
-							}
-						}
-					}
-				}
-				if x.Op == token.EQL {
-					if s, ok := c.strConst(x.Y); ok {
-						switch {
-						case s == spec.Help:
-							helpClause = a.Clause
-						case s == spec.Terminator:
-							termClause = a.Clause
-						case len(fields) == 1:
-							gotBool[s] = fields[0]
-						default:
-							gotBool[s] = strings.Join(fields, "+")
-						}
-						continue
-					}
-				}
-				if x.Op == token.LAND || x.Op == token.LOR {
-					// len(arg) >= N && arg[0] == '-'   (any equivalent spelling)
-					if atoms, pure := c.nnf(x, true, nil).conjuncts(); pure && len(atoms) == 2 {
-						minLen, dash := int64(-1), false
-						for _, at := range atoms {
-							if b, ok := c.boundOf(at); ok {
-								if call, isC := stripParens(b.X).(*ast.CallExpr); isC && c.calleeName(call) == "len" && b.Lo != nil && b.Hi == nil {
-									minLen = *b.Lo
-								}
-								if _, isIx := stripParens(b.X).(*ast.IndexExpr); isIx && b.Lo != nil && b.Hi != nil && *b.Lo == '-' && *b.Hi == '-' {
-									dash = true
-								}
-							}
-						}
-						if dash && minLen == 3 {
-							clusterClause = a.Clause
-							continue
-						}
-						if dash && minLen == 2 {
-							unknownClause = a.Clause
-							continue
-						}
-					}
-				}
-				r.bad("flags", "case/"+fmt.Sprint(c.pos(e.Pos())), "unrecognised flag case condition", c.pos(e.Pos()))
-			case *ast.CallExpr:
-				if c.calleeName(x) == "strings.HasPrefix" && len(x.Args) == 2 {
-					if s, ok := c.strConst(x.Args[1]); ok {
-						gotValue[s] = fields
-						continue
-					}
-				}
-				r.bad("flags", "case/"+fmt.Sprint(c.pos(e.Pos())), "unrecognised flag case condition", c.pos(e.Pos()))
-			default:
-				r.bad("flags", "case/"+fmt.Sprint(c.pos(e.Pos())), "unrecognised flag case condition", c.pos(e.Pos()))
-			}
-		}
 	}
 	for _, sp := range sortedKeys(spec.BoolFlags) {
-		r.check(gotBool[sp] == spec.BoolFlags[sp], "flags", "bool/"+sp, "sets "+spec.BoolFlags[sp], fmt.Sprintf("flag %s sets %q; documented: %s", sp, gotBool[sp], spec.BoolFlags[sp]), c.pos(sw.Pos()))
-	}
-	for sp := range gotBool {
-		if _, ok := spec.BoolFlags[sp]; !ok {
-			r.bad("flags", "bool/"+sp, "undocumented flag spelling "+sp, c.pos(sw.Pos()))
-		}
+		outs, desc := outcome(sp)
+		o := single(outs)
+		ok := o != nil && o.Result == "next" && setsOnly(o, map[string]string{spec.BoolFlags[sp]: "true"}) && !o.RestWord && !o.RestTail && len(o.Spliced) == 0
+		r.check(ok, "flags", "bool/"+sp, "sets "+spec.BoolFlags[sp], fmt.Sprintf("flag %s: %s; documented: sets %s and goes on", sp, desc, spec.BoolFlags[sp]), c.pos(pa.Pos()))
 	}
 	for _, sp := range sortedKeys(spec.ValueFlags) {
-		want := append([]string(nil), spec.ValueFlags[sp]...)
-		sort.Strings(want)
-		r.check(strings.Join(gotValue[sp], ",") == strings.Join(want, ","), "flags", "value/"+sp, "sets "+strings.Join(want, ","), fmt.Sprintf("flag %s[=F] sets %v; documented: %v", sp, gotValue[sp], want), c.pos(sw.Pos()))
-	}
-	r.check(helpClause != nil && termClause != nil, "flags", "help+terminator", "-h and -- handled", "parseArgs must handle -h and --", c.pos(sw.Pos()))
-	// unknown flags: len(arg) > 1 && arg[0] == '-' -> error; default -> rest
-	okUnknown := false
-	if unknownClause != nil {
-		for _, s := range unknownClause.Body {
-			if rs, ok := s.(*ast.ReturnStmt); ok && len(rs.Results) == 2 && !isNilIdent(rs.Results[1]) {
-				okUnknown = true
-			}
+		fs := spec.ValueFlags[sp]
+		if len(fs) != 2 {
+			r.bad("flags", "value/"+sp, "spec: a value flag needs its two fields", "")
+			continue
 		}
+		outs1, d1 := outcome(sp)
+		outs2, d2 := outcome(sp + "=F.bcb")
+		outs3, d3 := outcome(sp + "x")
+		outs4, d4 := outcome(sp + "=")
+		o1, o2, o3, o4 := single(outs1), single(outs2), single(outs3), single(outs4)
+		ok := o1 != nil && o1.Result == "next" && setsOnly(o1, map[string]string{fs[0]: "true"}) &&
+			o2 != nil && o2.Result == "next" && setsOnly(o2, map[string]string{fs[0]: "true", fs[1]: `"F.bcb"`}) &&
+			o3 != nil && o3.Result == "error" &&
+			o4 != nil && o4.Result == "next" && o4.Sets[fs[0]] == "true" && (o4.Sets[fs[1]] == `""` || o4.Sets[fs[1]] == "")
+		r.check(ok, "flags", "value/"+sp, "sets "+strings.Join(fs, ","), fmt.Sprintf("flag %s: bare: %s; with =F.bcb: %s; with another suffix: %s; with '=': %s; documented: sets %v", sp, d1, d2, d3, d4, fs), c.pos(pa.Pos()))
 	}
-	r.check(okUnknown, "flags", "unknown-flag", "a word of two or more characters starting with '-' that is no flag is a usage error; a lone '-' is not", "the unknown-flag case must be exactly `len(arg) > 1 && arg[0] == '-'` returning an error (so that '-' alone still names standard input)", c.pos(sw.Pos()))
-	okDefault := false
-	if defaultClause != nil {
-		for _, f := range setsOf(defaultClause.Body) {
-			_ = f
+	{
+		outsH, dH := outcome(spec.Help)
+		oH := single(outsH)
+		outsT, dT := outcome(spec.Terminator)
+		oT := single(outsT)
+		okH := oH != nil && oH.Result == "help" && setsOnly(oH, map[string]string{"help": "func"})
+		okT := oT != nil && oT.Result == "stop" && len(oT.Sets) == 0
+		r.check(okH && okT, "flags", "help+terminator", "-h and -- handled", fmt.Sprintf("parseArgs must handle -h (%s) and -- (%s)", dH, dT), c.pos(pa.Pos()))
+		r.check(oT != nil && oT.RestTail && !oT.RestWord, "flags", "terminator-appends", "the words after '--' are appended to the file words seen before it", "the '--' case must append the remaining arguments to the file words collected so far (rest = append(rest, args[1:]...)); assigning them drops a FILE given before '--': "+dT, c.pos(pa.Pos()))
+	}
+	{
+		okU := true
+		var descs []string
+		for _, w := range []string{"-x", "--zzz", "-1", "--d"} {
+			outs, d := outcome(w)
+			o := single(outs)
+			if o == nil || o.Result != "error" || len(o.Sets) != 0 || o.RestWord {
+				okU = false
+			}
+			descs = append(descs, w+": "+d)
 		}
-		ast.Inspect(defaultClause, func(n ast.Node) bool {
-			if call, ok := n.(*ast.CallExpr); ok && c.calleeName(call) == "append" {
-				okDefault = true
+		r.check(okU, "flags", "unknown-flag", "a word of two or more characters starting with '-' that is no flag is a usage error; a lone '-' is not", "unknown flags must be usage errors: "+strings.Join(descs, "; "), c.pos(pa.Pos()))
+		okF := true
+		descs = nil
+		for _, w := range []string{"-", "file.bcl", "x", ""} {
+			outs, d := outcome(w)
+			o := single(outs)
+			if o == nil || o.Result != "next" || len(o.Sets) != 0 || !o.RestWord || o.RestTail {
+				okF = false
 			}
-			return true
-		})
+			descs = append(descs, fmt.Sprintf("%q: %s", w, d))
+		}
+		r.check(okF, "flags", "file-words", "other words are collected as file arguments", "words that are not flags (a lone '-' included) must be collected as file arguments: "+strings.Join(descs, "; "), c.pos(pa.Pos()))
 	}
-	// '--': everything after it is appended to the words collected so far
-	okTerm := false
-	if termClause != nil {
-		ast.Inspect(termClause, func(n ast.Node) bool {
-			as, ok := n.(*ast.AssignStmt)
-			if !ok || len(as.Lhs) != 1 || len(as.Rhs) != 1 {
-				return true
-			}
-			call, ok := as.Rhs[0].(*ast.CallExpr)
-			if ok && c.calleeName(call) == "append" && len(call.Args) >= 2 && c.objOfExpr(as.Lhs[0]) != nil && c.objOfExpr(call.Args[0]) == c.objOfExpr(as.Lhs[0]) {
-				okTerm = true
-			}
-			return true
-		})
-	}
-	r.check(okTerm, "flags", "terminator-appends", "the words after '--' are appended to the file words seen before it", "the '--' case must append the remaining arguments to the file words collected so far (rest = append(rest, args[1:]...)); assigning them drops a FILE given before '--'", c.pos(sw.Pos()))
-	r.check(okDefault, "flags", "file-words", "other words are collected as file arguments", "words that are not flags must be collected as file arguments", c.pos(sw.Pos()))
 	// usage string mentions the flags
 	if u, ok := pkgConstString(c.Cmd, "usage"); ok {
 		missing := []string{}
@@ -287,40 +171,29 @@ func checkC18(c *Ctx, r *Report) {
 		r.bad("flags", "usage-string", "constant usage not found", "")
 	}
 	// cluster expansion
-	r.rule("cluster", 1, "-xyz expands to -x -y -z for lower-case letters by building the expansion on a fresh slice: the arguments after the cluster are copied before anything is appended onto args[:1]")
-	okCluster := false
-	why := "no cluster case (len(arg) > 2 && arg[0] == '-')"
-	if clusterClause != nil {
-		why = "the expansion must be args = append(args[:1], append(<fresh letters slice>, args[1:]...)...)"
-		ast.Inspect(clusterClause, func(n ast.Node) bool {
-			as, ok := n.(*ast.AssignStmt)
-			if !ok || len(as.Lhs) != 1 || len(as.Rhs) != 1 {
-				return true
+	r.rule("cluster", 1, "-xyz is replaced by -x -y -z (lower-case letters only; anything else is a usage error) in front of the arguments that follow, the expansion being built on a fresh list that already holds a copy of those arguments before it is joined to the part of the argument list up to the current word")
+	{
+		okC := true
+		var descs []string
+		for w, want := range map[string][]string{"-dt": {"-d", "-t"}, "-srd": {"-s", "-r", "-d"}} {
+			outs, d := outcome(w)
+			o := single(outs)
+			if o == nil || o.Result != "next" || len(o.Sets) != 0 || o.RestWord || o.RestTail || strings.Join(o.Spliced, " ") != strings.Join(want, " ") {
+				okC = false
 			}
-			outer, ok := as.Rhs[0].(*ast.CallExpr)
-			if !ok || c.calleeName(outer) != "append" || len(outer.Args) != 2 || !outer.Ellipsis.IsValid() {
-				return true
+			descs = append(descs, w+": "+d)
+		}
+		for _, w := range []string{"-d1", "-dT", "-d-"} {
+			outs, d := outcome(w)
+			o := single(outs)
+			if o == nil || o.Result != "error" {
+				okC = false
 			}
-			head, ok1 := outer.Args[0].(*ast.SliceExpr)
-			inner, ok2 := outer.Args[1].(*ast.CallExpr)
-			if !ok1 || !ok2 || c.calleeName(inner) != "append" || len(inner.Args) != 2 || !inner.Ellipsis.IsValid() {
-				return true
-			}
-			tail, ok3 := inner.Args[1].(*ast.SliceExpr)
-			if !ok3 {
-				return true
-			}
-			sameBase := c.objOfExpr(head.X) != nil && c.objOfExpr(head.X) == c.objOfExpr(tail.X) && c.objOfExpr(head.X) == c.objOfExpr(as.Lhs[0])
-			h, hok := c.intConst(head.High)
-			l, lok := c.intConst(tail.Low)
-			lettersFresh := c.objOfExpr(inner.Args[0]) != nil && c.objOfExpr(inner.Args[0]) != c.objOfExpr(head.X)
-			if sameBase && hok && lok && h == 1 && l == 1 && head.Low == nil && tail.High == nil && lettersFresh {
-				okCluster = true
-			}
-			return true
-		})
+			descs = append(descs, w+": "+d)
+		}
+		sort.Strings(descs)
+		r.check(okC, "cluster", "expansion", "letters spliced in before a copy of the tail", "cluster expansion: "+strings.Join(descs, "; "), c.pos(pa.Pos()))
 	}
-	r.check(okCluster, "cluster", "expansion", "tail copied onto the fresh letters slice first", "cluster expansion: "+why, c.pos(sw.Pos()))
 
 	// ---- wiring
 	r.rule("wiring", 4, "run passes exactly the documented options to LoadProg, ParseFile and Execute, taken from the matching flag fields; it passes neither OptOutput nor OptLogger; the result is printed with fmt.Printf under the result flag; Dump happens before Execute")
